@@ -331,6 +331,14 @@ func runSimple(seed uint64, cas int, tier string) *SimpleRes {
 			return 0
 		})
 		childLog("simple op %d %s", i, o)
+		// the journal's installer is held back for stretches of ten requests:
+		// committed data is then served from the memory log
+		switch i % 40 {
+		case 20:
+			d.HoldHome(uint64(common.LOGSIZE))
+		case 30:
+			d.ReleaseHome()
+		}
 		d.Mark(EvCall, i)
 		r := doSimple(api, o)
 		d.Mark(EvRet, i)
@@ -346,6 +354,7 @@ func runSimple(seed uint64, cas int, tier string) *SimpleRes {
 		}
 		snaps = append(snaps, m.key())
 	}
+	d.ReleaseHome()
 	trace := d.StopRecording()
 	if stub != nil {
 		if err := stub.Err(); err != nil {
@@ -651,6 +660,15 @@ func runKvs(seed uint64, cas int, tier string) *KvsRes {
 	next := uint64(1)
 	for i := 0; i < 60 && len(res.Viol) == 0; i++ {
 		childLog("kvs op %d", i)
+		// for ten operations out of twenty the journal's installer is held
+		// back: what was put lives in the memory log only and gets are
+		// answered from there
+		switch i % 20 {
+		case 10:
+			d.HoldHome(uint64(common.LOGSIZE))
+		case 0:
+			d.ReleaseHome()
+		}
 		d.Mark(EvCall, i)
 		if i%20 == 7 {
 			// a multi-put of many keys (still one journal transaction)
@@ -750,6 +768,7 @@ func runKvs(seed uint64, cas int, tier string) *KvsRes {
 		res.Ops++
 		snaps = append(snaps, st.key(keys))
 	}
+	d.ReleaseHome()
 	trace := d.StopRecording()
 	kv.Delete()
 	res.Sample = oplog[:minInt(6, len(oplog))]
